@@ -14,6 +14,29 @@
 
 static unsigned long long n_cases = 0, n_nontrivial = 0, n_records = 0;
 static int which; static double j_d; static float j_f;
+/* the same value through the other routes that produce its text: an exactly fitting caller buffer (strlen + 1 bytes, exact-size heap
+ * block), SCPI_NumberToStr without and with a unit, and a one-element ASCII array result; each must carry the text of the roomy call */
+static scpi_t * xctx;
+static void same_text_elsewhere(int is_float, double dv, float fv, const char * text) {
+    size_t tl = strlen(text), r;
+    char * fit = (char *) malloc(tl + 1);
+    char nb[80], want[80];
+    memset(fit, 0x5A, tl + 1);
+    r = is_float ? SCPI_FloatToStr(fv, fit, tl + 1) : SCPI_DoubleToStr(dv, fit, tl + 1);
+    if (r != tl || memcmp(fit, text, tl + 1)) mc_viol(is_float ? "c16/float-text/exactly-fitting-buffer" : "c16/double-text/exactly-fitting-buffer", "%s(%.17g) into a buffer of %d bytes returned %d [%s], the text is [%s]", is_float ? "SCPI_FloatToStr" : "SCPI_DoubleToStr", is_float ? (double) fv : dv, (int) tl + 1, (int) r, mc_e(fit, tl + 1), text);
+    free(fit);
+    if (!is_float) {
+        scpi_number_t num;
+        memset(&num, 0, sizeof num); num.special = FALSE; num.content.value = dv; num.unit = SCPI_UNIT_NONE; num.base = 10;
+        r = SCPI_NumberToStr(xctx, scpi_special_numbers_def, &num, nb, sizeof nb);
+        if (r != tl || strcmp(nb, text)) mc_viol("c16/number-text", "SCPI_NumberToStr(%.17g, no unit) = [%s], SCPI_DoubleToStr gives [%s]", dv, nb, text);
+        num.unit = SCPI_UNIT_VOLT;
+        r = SCPI_NumberToStr(xctx, scpi_special_numbers_def, &num, nb, sizeof nb);
+        snprintf(want, sizeof want, "%s V", text);
+        if (r != strlen(want) || strcmp(nb, want)) mc_viol("c16/number-text", "SCPI_NumberToStr(%.17g V) = [%s], expected [%s]", dv, nb, want);
+    }
+}
+
 static scpi_result_t h_q(scpi_t * c) { if (which) SCPI_ResultFloat(c, j_f); else SCPI_ResultDouble(c, j_d); return SCPI_RES_OK; }
 static const scpi_command_t cmds[] = { {"Q?", h_q, 1}, SCPI_CMD_LIST_END };
 static tc_t T;
@@ -26,6 +49,7 @@ int main(int argc, char ** argv) {
     f = fopen(mc_aux_path, "r");
     if (!f) { printf("VIOL idx=0 sig=c16/harness :: cannot open %s\n", mc_aux_path); return 2; }
     tc_init(&T, cmds, 16, 4);
+    xctx = &T.ctx;
 #if USE_CUSTOM_DTOSTRE
     snprintf(recpath, sizeof recpath, "%s.rec.%llu", mc_aux_path, mc_shard);
     rec = fopen(recpath, mc_skip ? "a" : "w");
@@ -62,6 +86,7 @@ int main(int argc, char ** argv) {
                 if (r != strlen(buf)) mc_viol("c16/length", "SCPI_DoubleToStr(%.17g) returned %d for [%s]", v, (int) r, buf);
                 if (isnan(v) && strcmp(buf, "nan") && strcmp(buf, "-nan")) mc_viol("c16/nan-spelling", "SCPI_DoubleToStr(NaN) = [%s]", buf);
                 if (isinf(v) && strcmp(buf, v > 0 ? "inf" : "-inf")) mc_viol("c16/inf-spelling", "SCPI_DoubleToStr(%g) = [%s]", v, buf);
+                if (!isnan(v)) same_text_elsewhere(0, v, 0, buf);
                 n_nontrivial++;
             }
 #else
@@ -70,6 +95,7 @@ int main(int argc, char ** argv) {
             if (r != strlen(buf)) { mc_viol("c16/length", "SCPI_DoubleToStr(%.17g) returned %d for [%s]", v, (int) r, buf); continue; }
             which = 0; j_d = v; tr_reset(); SCPI_Input(&T.ctx, "Q?\n", 3);
             if (OUTN < 2 || OUTN - 2 != strlen(exp) || memcmp(OUT, exp, OUTN - 2)) { if (!isnan(v)) { mc_viol("c16/result-double-text", "SCPI_ResultDouble(%.17g) wrote [%s], expected [%s]", v, mc_e(OUT, OUTN), exp); continue; } }
+            if (!isnan(v)) same_text_elsewhere(0, v, 0, buf);
             n_nontrivial++;
             mc_outcome(mc_hash(buf, strlen(buf), 1));
 #endif
@@ -78,6 +104,7 @@ int main(int argc, char ** argv) {
 #if USE_CUSTOM_DTOSTRE
             r = SCPI_FloatToStr(v, buf, sizeof buf);
             { double dv = v; unsigned long long db; memcpy(&db, &dv, 8); fprintf(rec, "R %016llx 6 %s\n", db, buf); n_records++; }
+            if (!isnan(v)) same_text_elsewhere(1, 0, v, buf);
             n_nontrivial++;
 #else
             r = SCPI_FloatToStr(v, buf, sizeof buf);
@@ -85,6 +112,7 @@ int main(int argc, char ** argv) {
             if (r != strlen(buf)) { mc_viol("c16/length", "SCPI_FloatToStr(%.9g) returned %d for [%s]", (double) v, (int) r, buf); continue; }
             which = 1; j_f = v; tr_reset(); SCPI_Input(&T.ctx, "Q?\n", 3);
             if (OUTN < 2 || OUTN - 2 != strlen(exp) || memcmp(OUT, exp, OUTN - 2)) { mc_viol("c16/result-float-text", "SCPI_ResultFloat(%.9g) wrote [%s], expected [%s]", (double) v, mc_e(OUT, OUTN), exp); continue; }
+            if (!isnan(v)) same_text_elsewhere(1, 0, v, buf);
             n_nontrivial++;
             mc_outcome(mc_hash(buf, strlen(buf), 2));
 #endif
